@@ -8,6 +8,7 @@ Models are computed by the real z3 binary; the wall-clock `:timeout` is replaced
 For `-solver oms` the reply is z3's model re-formatted into the shape oms_executable.py parses:
 OptiMathSAT is an empty file in this tree, so that path is a wire-format *stub*.
 """
+import hashlib
 import os
 import re
 import shlex
@@ -115,20 +116,34 @@ class SimSolver:
         self.calls = []              # record: (file, kind, outcome head, decoded seq or None)
         self.prev_reply = ""
         self.n = 0
+        self.keyed = True
+        self.by_block = {}
         self.mutator = None          # callable(reply_text, call_record) -> reply_text (C05 corrupt peer)
 
     def run_command(self, cmd):
         parts = shlex.split(cmd)
         oms = parts[0].endswith("optimathsat")
         path = parts[2] if parts[1] == "-smt2" else parts[1]
-        entry = self.plan[self.n] if self.n < len(self.plan) else self.default
+        base = os.path.basename(path)
+        block = base.split("_encoding_")[0]
+        if block in self.by_block:
+            entry = self.by_block[block]
+        elif self.plan and self.keyed:
+            # keyed by the problem's name, not by call order: a run in which an earlier block fails
+            # (no solver call) still gives every other block the same peer behaviour
+            h = int.from_bytes(hashlib.sha256(block.encode()).digest()[:8], "big")
+            entry = self.plan[h % len(self.plan)]
+        elif self.n < len(self.plan):
+            entry = self.plan[self.n]
+        else:
+            entry = self.default
         self.n += 1
         self.fs.event("solver_call", path + "#" + entry["kind"])
         f = self.fs.open(path, "r")
         text = f.read()
         f.close()
         reply = self.answer(text, entry, oms)
-        rec = {"file": path, "kind": entry["kind"], "head": reply.split("\n", 1)[0][:40], "oms": oms,
+        rec = {"file": path, "block": block, "kind": entry["kind"], "head": reply.split("\n", 1)[0][:40], "oms": oms,
                "smt2": text if entry.get("keep_smt2") else None}
         self.calls.append(rec)
         if self.mutator is not None:
